@@ -285,17 +285,29 @@ def _r3(chk, repo, model):
                f"PDE gradient dispatch: {'; '.join(bad) or undec[:1]}", pg_src)
 
 
+def _bound_args(repo, ci, mname, call):
+    """the arguments of a call of self.<mname> in the order of the method's parameters, whether they were passed by position or by keyword"""
+    params = func_params(repo.method(ci, mname)[1])[1:]
+    out = [_norm(a) for a in call.args]
+    kw = {k.arg: k.value for k in call.keywords if k.arg}
+    for p_ in params[len(out):]:
+        if p_ not in kw:
+            break
+        out.append(_norm(kw.pop(p_)))
+    return out + [f"{k_}={_norm(v_)}" for k_, v_ in kw.items()]
+
+
 def _r4_r5(chk, repo, model):
     from .common import canon_keep, guarded, pmatch
     from ..pattern import norm as pn, unify, statements
     src = repo.method(model, "forward")[1]
-    fn = canon_keep(repo, model, src, keep={"_apply_func", "_parse_args_add_to_kwargs", "_2fun", "_2par"})
+    fn = canon_keep(repo, model, src, keep={"_apply_func", "_parse_args_add_to_kwargs", "_2fun", "_2par"}, subst="attr")
     g = CFG(fn)
     inst = f"{model.qual}.forward"
     app = [n for n in g.nodes if n.ast is not None and n.kind == "return" and isinstance(n.ast.value, ast.Call) and call_name(n.ast.value) == "self._apply_func"]
     if len(app) != 1:
         raise AnchorError(f"{inst}: expected one `return self._apply_func(...)`")
-    args = [_norm(a) for a in app[0].ast.value.args]
+    args = _bound_args(repo, model, "_apply_func", app[0].ast.value)
     problems = []
     if args != ["self._forward_func", "self.range_geometry", "self.domain_geometry", "x", "is_par"]:
         problems.append(f"_apply_func is called with {args}, expected (self._forward_func, self.range_geometry, self.domain_geometry, x, is_par)")
